@@ -382,10 +382,32 @@ func Encode(req int, op Op, nowNs int64) *Wire {
 				rl.Resource.Attributes = append(rl.Resource.Attributes, &otlpCommon.KeyValue{Key: kv[0], Value: &otlpCommon.AnyValue{Value: &otlpCommon.AnyValue_StringValue{StringValue: kv[1]}}})
 			}
 			sl := &otlpLogs.ScopeLogs{Scope: &otlpCommon.InstrumentationScope{Name: "sim"}}
+			otlpKey := func(k string) string {
+				k = regexp.MustCompile(`[^a-zA-Z0-9_]`).ReplaceAllString(k, "_")
+				if k == "" || (k[0] >= '0' && k[0] <= '9') {
+					k = "_" + k
+				}
+				return k
+			}
 			for ei, e := range s.Entries {
 				e.Metric = false
 				ee, x := mk(si, ei, e, false)
-				sl.LogRecords = append(sl.LogRecords, &otlpLogs.LogRecord{TimeUnixNano: uint64(ee.ts), Body: &otlpCommon.AnyValue{Value: &otlpCommon.AnyValue_StringValue{StringValue: ee.line}}})
+				rec := &otlpLogs.LogRecord{TimeUnixNano: uint64(ee.ts), Body: &otlpCommon.AnyValue{Value: &otlpCommon.AnyValue_StringValue{StringValue: ee.line}}}
+				exp := map[string]string{}
+				for _, kv := range s.Labels {
+					exp[otlpKey(kv[0])] = kv[1]
+				}
+				// records of one scope differ in their own attributes and severity
+				switch ei % 3 {
+				case 0:
+					rec.Attributes = []*otlpCommon.KeyValue{{Key: "rec.kind", Value: &otlpCommon.AnyValue{Value: &otlpCommon.AnyValue_StringValue{StringValue: fmt.Sprintf("k%d", ei%2)}}}}
+					exp["rec_kind"] = fmt.Sprintf("k%d", ei%2)
+				case 1:
+					rec.SeverityText = "warn"
+					exp["level"] = "warn"
+				}
+				x.Labels, x.LabelKey = exp, labelKey(exp)
+				sl.LogRecords = append(sl.LogRecords, rec)
 				w.Rows = append(w.Rows, x)
 			}
 			rl.ScopeLogs = append(rl.ScopeLogs, sl)
